@@ -10,12 +10,12 @@ import (
 	"path/filepath"
 	"sort"
 	"strings"
+	"syscall"
 	"testing"
 
 	"connectrpc.com/conformance/internal/verifkit"
 	"pgregory.net/rapid"
 )
-
 
 // vfArg is one occurrence of a pattern flag: a literal pattern or an @file.
 type vfArg struct {
@@ -25,6 +25,9 @@ type vfArg struct {
 	NoEOL   bool     `json:"noEOL,omitempty"` // file does not end in a newline
 	Empty   bool     `json:"emptyName,omitempty"`
 	Bad     string   `json:"bad,omitempty"` // "dir": the @path is a directory; "missing": it does not exist
+	// Fifo: the @path is a named pipe that delivers the lines (as `--known-failing @<(generate)` does): a file whose
+	// size is not known beforehand
+	Fifo bool `json:"fifo,omitempty"`
 }
 
 type vfC08ArgsCase struct {
@@ -80,12 +83,36 @@ func vfMaterialise(dir string, args []vfArg) ([]string, error) {
 		if !a.NoEOL && len(a.Lines) > 0 {
 			content += "\n"
 		}
-		if err := os.WriteFile(path, []byte(content), 0o644); err != nil {
+		if a.Fifo {
+			path += ".fifo"
+			_ = os.Remove(path)
+			if err := syscall.Mkfifo(path, 0o644); err != nil {
+				return nil, err
+			}
+			go func(path, content string) {
+				// (blocks until the reader opens the pipe; released by vfReleaseFifos if nobody ever does)
+				if f, err := os.OpenFile(path, os.O_WRONLY, 0); err == nil {
+					_, _ = f.WriteString(content)
+					_ = f.Close()
+				}
+			}(path, content)
+		} else if err := os.WriteFile(path, []byte(content), 0o644); err != nil {
 			return nil, err
 		}
 		out = append(out, "@"+path)
 	}
 	return out, nil
+}
+
+// vfReleaseFifos unblocks writers of named pipes nobody opened.
+func vfReleaseFifos(args []string) {
+	for _, a := range args {
+		if strings.HasSuffix(a, ".fifo") {
+			if f, err := os.OpenFile(strings.TrimPrefix(a, "@"), os.O_RDONLY|syscall.O_NONBLOCK, 0); err == nil {
+				_ = f.Close()
+			}
+		}
+	}
 }
 
 // (test names of a user's own --test-file suite may contain commas, quotes and other punctuation)
@@ -135,6 +162,7 @@ func vfGenArgs(t *rapid.T) vfC08ArgsCase {
 					}
 				}
 				a.NoEOL = rapid.Bool().Draw(t, "noeol")
+				a.Fifo = rapid.IntRange(0, 5).Draw(t, "fifo") == 0
 			}
 		} else {
 			counter++
@@ -181,6 +209,7 @@ func TestVerifC08Args(t *testing.T) {
 		Gen: vfGenArgs,
 		Check: func(c vfC08ArgsCase) error {
 			args, err := vfMaterialise(dir, c.Args)
+			defer vfReleaseFifos(args)
 			if err != nil {
 				return nil // harness I/O problem, not a verdict
 			}
@@ -229,6 +258,7 @@ func TestVerifC08CLI(t *testing.T) {
 		Gen: vfGenArgs,
 		Check: func(c vfC08ArgsCase) error {
 			args, err := vfMaterialise(dir, c.Args)
+			defer vfReleaseFifos(args)
 			if err != nil {
 				return nil
 			}
